@@ -621,7 +621,9 @@ def run(chk, repo, tier):
     support.graph_table_rules(chk, repo, 'C06.R7')
     support.storage_type_rules(chk, repo, 'C06.R8', {'hamiltonian', 'mpo'}, only=set(CHAIN_MODELS) | {
         AUTOMATON_MODEL, GRAPH_MODEL, 'hamiltonian._local_opchains_to_mpo', 'mpo.MPO.from_opgraph'} | {
-        q_ for q_, f_ in repo.funcs.items() if f_.module == 'hamiltonian' and f_.name.startswith('_') and f_.cls is None})
+        q_ for q_, f_ in repo.funcs.items() if f_.module == 'hamiltonian' and f_.name.startswith('_') and f_.cls is None and
+        f_.name in {n_.id for qq in CHAIN_MODELS + [AUTOMATON_MODEL, GRAPH_MODEL, 'hamiltonian._local_opchains_to_mpo']
+                    for n_ in ast.walk(repo.func(qq).node) if isinstance(n_, ast.Name)}})
     for q in CHAIN_MODELS:
         chain_model_rules(chk, repo, q)
     automaton_rules(chk, repo)
